@@ -810,7 +810,7 @@ func (f *fgen) emitCall(fn uint32, d int) {
 				if r.Chance(1, 60) {
 					f.expr(i32, 1) // arbitrary index: may trap (deterministically)
 				} else {
-					f.c.I32Const(int32(slot))
+					f.i32Exact(int32(slot))
 				}
 				f.c.CallIndirect(f.typeIdx(s), 0)
 				f.g.use("call_indirect")
@@ -1055,7 +1055,22 @@ func (f *fgen) smallI32(max int) {
 		f.expr(i32, 1)
 		return
 	}
-	f.c.I32Const(int32(f.r.Intn(max + 1)))
+	f.i32Exact(int32(f.r.Intn(max + 1)))
+}
+
+// i32Exact pushes the i32 value v; one time in eight as i32.wrap_i64 of a non-constant i64 whose upper half is
+// whatever an i64 expression produced (an engine that keeps the upper half of a wrapped value in the register must
+// not let it reach a table index, an address or a length).
+func (f *fgen) i32Exact(v int32) {
+	if f.r.Chance(1, 8) {
+		f.expr(i64, 1)
+		f.c.I64Const(32).Op(0x86)               // i64.shl
+		f.c.I64Const(int64(uint32(v))).Op(0x84) // i64.or
+		f.c.Op(0xa7)                            // i32.wrap_i64
+		f.g.use("wrapped-i64-index")
+		return
+	}
+	f.c.I32Const(v)
 }
 
 func (f *fgen) stmt() (terminated bool) {
@@ -1279,7 +1294,8 @@ func (f *fgen) stmt() (terminated bool) {
 			if r.Chance(1, 3) {
 				for slot, tf := range f.g.tableFns {
 					if tf == fn {
-						c.I32Const(int32(slot)).ReturnCallIndirect(f.typeIdx(s), 0)
+						f.i32Exact(int32(slot))
+						c.ReturnCallIndirect(f.typeIdx(s), 0)
 						f.g.use("return_call_indirect")
 						done = true
 						break
